@@ -80,9 +80,15 @@ def parse_output(text):
                 blk["covers_total"] = int(m.group(2))
             m = re.match(r"^Failed Checks: (.*)$", ln)
             if m:
-                fc = {"desc": clean_desc(m.group(1)), "file": "", "line": 0, "func": ""}
-                if i + 1 < len(lines):
-                    m2 = re.match(r'^\s*File: "([^"]*)", line (\d+), in (.*)$', lines[i + 1])
+                desc = m.group(1)
+                # the description may be pretty-printed over several lines; it ends at the ` File:` line
+                j = i + 1
+                while j < len(lines) and not re.match(r'^\s*File: "', lines[j]) and not lines[j].startswith("Failed Checks:") and not lines[j].startswith("VERIFICATION") and j < i + 12:
+                    desc += " " + lines[j].strip()
+                    j += 1
+                fc = {"desc": clean_desc(desc), "file": "", "line": 0, "func": ""}
+                if j < len(lines):
+                    m2 = re.match(r'^\s*File: "([^"]*)", line (\d+), in (.*)$', lines[j])
                     if m2:
                         fc.update(file=m2.group(1), line=int(m2.group(2)), func=m2.group(3).strip())
                 blk["failed_checks"].append(fc)
